@@ -149,6 +149,7 @@ func (h *ForkableHub) subscribe(handler bstream.Handler, initialBlocks []*bstrea
 	for _, ppblk := range initialBlocks {
 		_ = sub.push(ppblk)
 	}
+	verifPoint("subscribe:before-append")
 	h.subscribers = append(h.subscribers, sub)
 	return sub
 }
